@@ -6,6 +6,7 @@ VERIF = os.path.dirname(os.path.dirname(os.path.abspath(__file__)))
 REPO = os.environ.get("VERIF_REPO", "/repo")
 BUILD = os.environ.get("VERIF_BUILD", os.path.join(VERIF, ".build"))
 SPEC = os.path.join(VERIF, "spec")
+EVID = os.environ.get("VERIF_EVIDENCE", os.path.join(VERIF, "evidence"))   # seeded-change evaluations write elsewhere
 TLA_CP = "/opt/veriftools/tla/tla2tools.jar:/opt/veriftools/tla/CommunityModules-deps.jar"
 NCPU = os.cpu_count() or 4
 
@@ -369,8 +370,8 @@ class Check:
                 return
         if any(v[0] == signature for v in self.viol):
             return
-        os.makedirs(os.path.join(VERIF, "evidence", "replay"), exist_ok=True)
-        path = os.path.join(VERIF, "evidence", "replay", "%s-%s.txt" % (self.pid, re.sub(r"[^A-Za-z0-9_.-]", "_", replay_name or signature)))
+        os.makedirs(os.path.join(EVID, "replay"), exist_ok=True)
+        path = os.path.join(EVID, "replay", "%s-%s.txt" % (self.pid, re.sub(r"[^A-Za-z0-9_.-]", "_", replay_name or signature)))
         with open(path, "w") as f:
             f.write("# property=%s signature=%s\n# %s\n" % (self.pid, signature, what))
             for ln in replay_lines or []:
@@ -386,10 +387,10 @@ class Check:
             self.cov["rule"] = "cases enumerated by the TLA+ specification (TLC) plus seeded random cases; distinct_nontrivial counts distinct case classes recorded via Check.nontrivial()"
         if not self.cov["samples"]:
             self.cov["samples"] = ["(no sample recorded)"]
-        os.makedirs(os.path.join(VERIF, "evidence"), exist_ok=True)
-        tmp = os.path.join(VERIF, "evidence", self.pid + ".json.tmp")
+        os.makedirs(EVID, exist_ok=True)
+        tmp = os.path.join(EVID, self.pid + ".json.tmp")
         json.dump(ev, open(tmp, "w"), indent=1)
-        os.replace(tmp, os.path.join(VERIF, "evidence", self.pid + ".json"))
+        os.replace(tmp, os.path.join(EVID, self.pid + ".json"))
         for sig, what in self.known:
             log("KNOWN-FINDING: property=%s %s [%s]" % (self.pid, what, sig))
         for sig, what, path in self.viol:
